@@ -188,8 +188,10 @@ theorem elemLt_trans (ps : List Param) (a b c : Elem) (h1 : elemLt ps a b = true
   exact ⟨h1.1, allLt_trans _ _ _ h1.2 h2.2⟩
 
 /-- vector `<` is irreflexive and asymmetric on both code paths -/
-theorem vecLt_asymm (ps : List Param) (a b : List Elem) (h : vecLt ps a b = true) : vecLt ps b a = false := by
+theorem vecLt_asymm (ps : List Param) (fa fb : List Nat) (a b : List Elem) (h : vecLt ps fa fb a b = true) :
+    vecLt ps fb fa b a = false := by
   unfold vecLt at h ⊢
+  rw [show (fixedSizesOf ps fb == fixedSizesOf ps fa) = (fixedSizesOf ps fa == fixedSizesOf ps fb) from BEq.comm]
   split at h
   · rename_i hc
     simp only [hc, if_true]
@@ -204,16 +206,17 @@ theorem vecLt_asymm (ps : List Param) (a b : List Elem) (h : vecLt ps a b = true
     simp only [hc, if_false]
     exact lexBy_asymm_of (elemLt_asymm ps) a b h
 
-theorem vecLt_irrefl (ps : List Param) (a : List Elem) : vecLt ps a a = false := by
-  cases h : vecLt ps a a
+theorem vecLt_irrefl (ps : List Param) (f : List Nat) (a : List Elem) : vecLt ps f f a a = false := by
+  cases h : vecLt ps f f a a
   · rfl
-  · have := vecLt_asymm ps a a h; rw [h] at this; exact this
+  · have := vecLt_asymm ps f f a a h; rw [h] at this; exact this
 
 /-- on the whole-buffer path vector `<` is a strict weak order -/
-theorem vecLt_swo_fastpath (ps : List Param) (hc : (ps.all (·.ty.lexMemcmp) && isFixedOrPlain ps && storageAl ps == 1) = true) :
-    SWO (vecLt ps) := by
+theorem vecLt_swo_fastpath (ps : List Param) (f : List Nat)
+    (hc : (ps.all (·.ty.lexMemcmp) && isFixedOrPlain ps && storageAl ps == 1) = true) :
+    SWO (vecLt ps f f) := by
   unfold vecLt
-  simp only [hc, if_true]
+  simp only [hc, beq_self_eq_true, Bool.and_true, if_true]
   have hb := lexLt_swo.comap (vecBytes ps)
   constructor
   · intro a b hab
@@ -299,13 +302,51 @@ theorem runs_all_false (pred : Param → Bool) (brk : Bool) (ps : List Param) (h
   rw [runsGo_all_false pred brk ps 0 0 _ h k]
   simp [hk]
 
+theorem fixedSizesEq_of_counts : ∀ (ps : List Param) (a b : Elem), elemCounts a = elemCounts b → fixedSizesEq ps a b = true := by
+  intro ps
+  induction ps with
+  | nil => intro a b _; cases a <;> cases b <;> rfl
+  | cons p ps ih =>
+    intro a b hc
+    cases a with
+    | nil => rfl
+    | cons va a =>
+      cases b with
+      | nil => rfl
+      | cons vb b =>
+        simp only [elemCounts, List.map_cons, List.cons.injEq] at hc
+        simp only [fixedSizesEq, hc.1, beq_self_eq_true, ite_self, Bool.true_and]
+        exact ih a b hc.2
+
+/-- FixedSize fields of different sizes: never equal, whatever the values (and in both directions) -/
+theorem elemEq_fixed_size_differs (ps : List Param) (a b : Elem) (h : fixedSizesEq ps a b = false) : elemEq ps a b = some false := by
+  unfold elemEq; simp [h]
+
+theorem fixedSizesEq_symm : ∀ (ps : List Param) (a b : Elem), fixedSizesEq ps a b = fixedSizesEq ps b a := by
+  intro ps
+  induction ps with
+  | nil => intro a b; cases a <;> cases b <;> rfl
+  | cons p ps ih =>
+    intro a b
+    cases a with
+    | nil => cases b <;> rfl
+    | cons va a =>
+      cases b with
+      | nil => rfl
+      | cons vb b =>
+        simp only [fixedSizesEq, ih a b]
+        congr 1
+        split
+        · exact Bool.beq_comm
+        · rfl
+
 /-- equality of references, element-wise path (no memcmp-able value type in the list): true exactly for
     equal field values, provided both sides have the same field sizes -/
 theorem elemEq_iff_generic (ps : List Param) (a b : Elem)
     (hno : ∀ p ∈ ps, p.ty.eqMemcmp = false) (ha : a.length = ps.length) (hb : b.length = ps.length)
     (hc : elemCounts a = elemCounts b) : elemEq ps a b = some true ↔ a = b := by
   unfold elemEq
-  rw [eqFold_true]
+  rw [if_pos (fixedSizesEq_of_counts ps a b hc), eqFold_true]
   constructor
   · intro h
     apply List.ext_getElem (by omega)
